@@ -62,9 +62,31 @@ def witnesses(tier, seed):
             W.append(mk_write(T3[k % 3], list(dims), d, ALLOPS[k % 5], 'slice', s_, list(dims), noalias=True, same_tensor=True, family='noalias.seq'))
             if k % 9 == 0:
                 W.append(mk_write(T3[k % 3], list(dims), d, ALLOPS[(k // 9) % 5], 'slice', s_, list(dims), noalias=True, same_tensor=True, twice=True, family='noalias.seq.twice'))
+            if k % 3 == 0:   # an EXPRESSION of slices of the destination tensor on the right (a different overload from the bare same-type view)
+                W.append(mk_write(T3[k % 3], list(dims), d, ALLOPS[(k // 3) % 5], 'slice', s_, list(dims), noalias=True, same_tensor=True, rhs_expr=True, family='noalias.seq.expr'))
         for d, s_ in equal_extent_pairs(list(dims), rng, 60 if quick else 300, kind='fseq'):
             k += 1
             W.append(mk_write(T3[k % 3], list(dims), d, ALLOPS[k % 5], 'slice', s_, list(dims), noalias=True, same_tensor=True, family='noalias.fseq'))
+            if k % 2 == 0:
+                W.append(mk_write(T3[k % 3], list(dims), d, ALLOPS[(k // 2) % 5], 'slice', s_, list(dims), noalias=True, same_tensor=True, rhs_expr=True, family='noalias.fseq.expr'))
+    # shifted overlaps, systematically: destination after / before the source along the last axis (long enough for several vectors) and
+    # along the leading axis, every operator, a bare slice and an expression of slices on the right, ranks 1-3, both view kinds
+    for dims in ([17], [3, 9], [2, 2, 9], [4, 2, 3]):
+        r = len(dims)
+        for kind in ('seq', 'fseq'):
+            full = [Axis(kind, 0, n, 1) for n in dims]
+            for axis in sorted(set([r - 1, 0])):
+                n = dims[axis]
+                for (d0, s0) in ((1, 0), (0, 1), (2, 0)):
+                    ln = n - max(d0, s0)
+                    if ln < 1:
+                        continue
+                    d = list(full); sx = list(full)
+                    d[axis] = Axis(kind, d0, d0 + ln, 1); sx[axis] = Axis(kind, s0, s0 + ln, 1)
+                    for op in ALLOPS:
+                        for rx in (False, True):
+                            k += 1
+                            W.append(mk_write(T3[k % 3], list(dims), d, op, 'slice', sx, list(dims), noalias=True, same_tensor=True, rhs_expr=rx, family='noalias.shift.' + kind + ('.expr' if rx else '')))
     # perfect overlap without noalias(): the same range on both sides
     for dims in [(9,), (17,), (4, 5), (3, 3, 4)]:
         per_axis = [all_triples(n, max_step=min(3, n), encodings=False) for n in dims]
